@@ -160,8 +160,26 @@ def shapes(tier):
     out.append(enum_shape("wrap_twice", "Octal", "octal", "{:o}", hexv, "{_variant}|{_variant}", "", True, quick=False))
     out.append(enum_shape("wrap_variant_only", "UpperExp", "upper_exp", "{:E}", hexv, "{_variant}", "", True, quick=False))
     out.append(bare_variant_flags_shape())
+    out += rejected_variant_placeholders()
     if tier == "quick":
         out = [s for s in out if s.quick]
+    return out
+
+
+def rejected_variant_placeholders():
+    """'a placeholder referring to `_variant` that carries any format specifier or a non-Display trait is rejected': must-not-compile programs,
+    decided by rustc while the harness crate is built (the decision half under engine L decides which attributes `contains_arg` /
+    `placeholders_by_arg` see; this is the user-visible end of it)."""
+    from ..shapes import reject_shape
+    progs = [("debug", "{_variant:?}", ""), ("width", "{_variant:>5}", ""), ("hex", "{_variant:x}", ""), ("zero", "{_variant:0}", ""),
+             ("precision_positional", "{0:.1}", ", _variant"), ("alias_debug", "{v:?}", ", v = _variant"), ("implicit_sign", "{:+}", ", _variant"),
+             ("second_of_two", "{_variant}{_variant:#}", ""), ("width_param", "{_variant:w$}", ", w = 3"), ("pointer", "{_variant:p}", "")]
+    out = [reject_shape("c07", n, '#[derive(derive_more::Display)] #[display("%s"%s)] pub enum E { A, B(u8) }' % (lit, args),
+                        "`_variant` placeholder with a format specifier", ["impl/src/fmt/display.rs::Expansion (shared format check)",
+                                                                           "impl/src/fmt/mod.rs::FmtAttribute::placeholders_by_arg"])
+           for n, lit, args in progs]
+    out.append(reject_shape("c07", "hex_derive_debug_variant", '#[derive(derive_more::LowerHex)] #[lower_hex("{_variant:?}")] pub enum E { A(u8), B(u8) }',
+                            "`_variant` placeholder with a non-Display trait", ["impl/src/fmt/display.rs::Expansion (shared format check)"]))
     return out
 
 
